@@ -1,9 +1,179 @@
+import CoupeModel.Model.ArcSwap
 import CoupeModel.Driver.Util
 
-namespace Coupe.Driver.C05
-open Coupe.Driver
+/-!
+Driver for C05: replays `Coupe.ArcSwap.step` under the schedule of the op line and prints
+the canonical trace line of the harness (`harness/src/props/c05.rs`).
+-/
 
-/-- (stub; not built yet) -/
-def handle (_toks : List String) : String := "bad-op"
+namespace Coupe.Driver.C05
+open Coupe.Driver Coupe.ArcSwap
+
+/-- Split a token list on the token `;`. -/
+def sections (toks : List String) : List (List String) :=
+  let r := toks.foldl (fun (acc : List (List String) × List String) t =>
+    if t == ";" then (acc.2.reverse :: acc.1, []) else (acc.1, t :: acc.2)) ([], [])
+  (r.2.reverse :: r.1).reverse
+
+def parseAll {α} (f : String → Option α) (l : List String) : Option (List α) := l.mapM f
+
+def isHex (s : String) : Bool :=
+  !s.isEmpty && s.length ≤ 16 && s.toList.all (fun c => c.isDigit || ('a' ≤ c && c ≤ 'f') || ('A' ≤ c && c ≤ 'F'))
+
+/-- `none` | finite f64 in `[0, 4]` as hex bits. -/
+def parseImb (s : String) : Option (Option Float) :=
+  if s == "none" then some none
+  else if !isHex s then none
+  else match parseHex? s with
+    | none => none
+    | some b =>
+      let x := Float.ofBits (UInt64.ofNat b)
+      if x.isFinite && 0.0 ≤ x && x ≤ 4.0 then some (some x) else none
+
+def strictlyIncreasing : List Nat → Bool
+  | a :: b :: rest => a < b && strictlyIncreasing (b :: rest)
+  | _ => true
+
+def nondecreasing : List Nat → Bool
+  | a :: b :: rest => a ≤ b && nondecreasing (b :: rest)
+  | _ => true
+
+structure Inst where
+  n : Nat
+  threads : Nat
+  imb : Option Float
+  g : Graph
+  w : List Int
+  parts : List Nat
+
+/-- Same validity rules as `parse_inst` of the harness. -/
+def parseInst (n threads imb : String) (secs : List (List String)) (maxN : Nat) : Option Inst := do
+  let n ← parseNat? n
+  let threads ← parseNat? threads
+  let imb ← parseImb imb
+  if n < 1 || n > maxN || threads < 1 || threads > 8 || secs.length < 5 then none
+  let indptr ← parseAll parseNat? (secs.getD 0 [])
+  let indices ← parseAll parseNat? (secs.getD 1 [])
+  let data ← parseAll parseInt? (secs.getD 2 [])
+  let w ← parseAll parseInt? (secs.getD 3 [])
+  let parts ← parseAll parseNat? (secs.getD 4 [])
+  if indptr.length != n + 1 || indptr.headD 1 != 0 || indptr.getLastD 0 != indices.length
+      || indices.length != data.length then none
+  if !nondecreasing indptr then none
+  let ents := indices.zip data
+  let g : Graph := (List.range n).map fun v =>
+    (ents.drop (indptr.getD v 0)).take (indptr.getD (v + 1) 0 - indptr.getD v 0)
+  if g.any (fun row => row.any (fun e => e.1 ≥ n) || !strictlyIncreasing (row.map (·.1))) then none
+  if data.any (fun x => x.natAbs > 1000) then none
+  if w.length != n || w.any (fun x => x < 0 || x > 1000) then none
+  if parts.length != n || parts.any (fun p => p ≥ 8) then none
+  pure { n, threads, imb, g, w, parts }
+
+/-- `W::from_f64(x)` for `W = i64` (truncation; `None` → panic outside the range). -/
+def fromF64 (x : Float) : Option Int :=
+  if x.isNaN then none
+  else if x < -9223372036854775808.0 || x ≥ 9223372036854775808.0 then none
+  else some x.toInt64.toInt
+
+/-- `max_part_weight` the way `compute_part_weights` evaluates it (in `f64`). -/
+def maxPwOf (i : Inst) (partCount : Nat) : Option Int :=
+  let pw := Coupe.loads i.w i.parts partCount
+  match i.imb with
+  | none => some (pw.foldl max (pw.headD 0))
+  | some imb =>
+    let ideal := Float.ofInt pw.sum / Float.ofNat partCount
+    fromF64 (ideal + imb * ideal)
+
+/-- Does `Int.tdiv` agree with the `f64` quotient the code evaluates, for every
+`part_weights` value a run can see?  Checked on the fly for the values that occur: the
+driver recomputes `thread_max_pws` with `Float` at each pass (see `floatOk`). -/
+def floatShare (maxPw x : Int) (t : Nat) : Option Int :=
+  (fromF64 (Float.ofInt (maxPw - x) / Float.ofNat t)).map (x + ·)
+
+def evTok (tid : Nat) (ev : Event) : String :=
+  toString tid ++ ":" ++
+  match ev with
+  | .taskBegin => "B"
+  | .taskEnd => "E"
+  | .cas v ok => "C" ++ toString v ++ (if ok then "+" else "-")
+  | .lockLoad v b => "L" ++ toString v ++ "=" ++ (if b then "1" else "0")
+  | .lockStore v b => (if b then "X" else "U") ++ toString v
+  | .partLoad v p => "R" ++ toString v ++ "=" ++ toString p
+  | .partStore v p => "W" ++ toString v ++ "=" ++ toString p
+
+def mdStr (m : Metadata) : String :=
+  ",".intercalate [toString m.edgeCutGain, toString m.passCount, toString m.moveAttempts,
+    toString m.moveCount, toString m.raceCount, toString m.lockedCount, toString m.noGainCount,
+    toString m.badBalanceCount, toString m.verticesPerThread]
+
+def idsStr (l : List Nat) : String := ",".intercalate (l.map toString)
+
+def traceStr (passes : List (List (Nat × Event))) : String :=
+  " ".intercalate (passes.zipIdx.map fun x =>
+    " ".intercalate (("P" ++ toString (x.2 + 1)) :: x.1.reverse.map (fun e => evTok e.1 e.2)))
+
+/-- Pass loop of the driver = `runLoop`, plus the `Float` cross-check of
+`thread_max_pws` at each pass. Returns `none` if `tdiv` and `f64` disagree. -/
+def floatOk (c : Cfg) (pw : List Int) : Bool :=
+  pw.all fun x => floatShare c.maxPw x c.threadCount == some (x + Int.tdiv (c.maxPw - x) c.threadCount)
+
+def runChecked (c : Cfg) (fuel : Nat) : Nat → State → List (List Nat) → List (List (Nat × Event)) →
+    Option (Outcome × List (List (Nat × Event)))
+  | 0, _, _, acc => some (.fuel, acc.reverse)
+  | passes + 1, s, scheds, acc =>
+    if !floatOk c s.pw then none else
+    let s1 := beginPass c s
+    let (s2, tr) := runSchedule c s1 (scheds.headD []) []
+    match finishPass c fuel s2 tr with
+    | none => some (.fuel, (tr :: acc).reverse)
+    | some (s3, tr3) =>
+      if s3.tasks.any (fun t => t.pc == .panic) then some (.panic, (tr3 :: acc).reverse)
+      else
+        let (s4, again) := endPass c s3
+        if again then runChecked c fuel passes s4 scheds.tail (tr3 :: acc)
+        else some (.ok s4.parts { s4.md with verticesPerThread := c.ipt }, (tr3 :: acc).reverse)
+
+def handle (toks : List String) : String :=
+  let secs := sections toks
+  let head := secs.headD []
+  let body := secs.tail
+  match head with
+  | ["ctl", n, threads, imb] =>
+    match parseInst n threads imb body 64, (body.drop 5).mapM (parseAll parseNat?) with
+    | some i, some scheds =>
+      let pc := partCountOf i.parts
+      match maxPwOf i pc with
+      | none => "panic"
+      | some maxPw =>
+        let c := mkCfg i.g i.w i.parts maxPw i.threads
+        match runChecked c 1000000 10000 (initState c i.parts) scheds [] with
+        | none => "skip float-division-differs"
+        | some (.ok ids md, tr) =>
+          "ok T=" ++ toString c.threadCount ++ " ipt=" ++ toString c.ipt ++ " ids=" ++ idsStr ids ++
+            " md=" ++ mdStr md ++ " tr=" ++ traceStr tr
+        | some (.panic, _) => "panic"
+        | some (.fuel, _) => "fuel"
+    | _, _ => "bad-op"
+  | ["seq", n, imb] =>
+    if body.length != 5 then "bad-op" else
+    match parseInst n "1" imb body 64 with
+    | some i =>
+      let pc := partCountOf i.parts
+      match maxPwOf i pc with
+      | none => "panic"
+      | some maxPw =>
+        let c := mkCfg i.g i.w i.parts maxPw 1
+        if !floatOk c (Coupe.loads i.w i.parts pc) then "skip float-division-differs" else
+        match runSeq i.g i.w i.parts maxPw 1 1000000 10000 with
+        | .ok ids md => "ok ids=" ++ idsStr ids ++ " md=" ++ mdStr md
+        | .panic => "panic"
+        | .fuel => "fuel"
+    | none => "bad-op"
+  | ["free", n, threads, imb] =>
+    if body.length != 5 then "bad-op" else
+    match parseInst n threads imb body 4096 with
+    | some _ => "skip free-running (oracle only)"
+    | none => "bad-op"
+  | _ => "bad-op"
 
 end Coupe.Driver.C05
